@@ -22,6 +22,7 @@ type CheckDef struct {
 	NoNativeReplay map[string]bool
 	Explanation    string
 	Gen            func() error
+	RaceID         string // native replays run under -race; a detector report counts as a failure of this assertion
 }
 
 var checkDefs = map[string]*CheckDef{}
@@ -589,5 +590,58 @@ func init() {
 		},
 		Outside:     []string{"streams outside the model; more than one distinct unknown message number / unlisted field number per stream (the model has one of each, with arbitrary values)"},
 		Assumptions: append([]string{"Logger = harness no-op type; map iteration order is a symbolic permutation in H16b; sort.Sort executed from the standard library's SSA"}, commonAssumptions...),
+	})
+}
+
+func init() {
+	reg(&CheckDef{
+		ID: "C08",
+		Jobs: func(tier string, meta map[string]int) []Job {
+			var js []Job
+			n := 2
+			if tier == "thorough" {
+				n = 3
+			}
+			for _, k := range kindSeqs(n) {
+				js = append(js, job("fit", "H08a", "n", n, "kinds", k))
+			}
+			js = append(js, job("fit", "H08b"), job("fit", "H08c"))
+			return js
+		},
+		MustReach:      []string{"C08.frame.no-state-survives-a-call", "C08.frame.accumulators-are-per-call", "C08.history.decode-independent-of-history", "C08.encode.identical-bytes-for-identical-files", "C08.encode.output-decodes"},
+		NoNativeReplay: map[string]bool{"C08.frame.accumulators-are-per-call": true, "C08.frame.no-state-survives-a-call": true},
+		Bounds: map[string]interface{}{
+			"quick":    "shared-write frame: Decode (with both counting options), DecodeChained, CheckIntegrity, DecodeHeader, DecodeHeaderAndFileID and Encode on every model stream with n = 2 records plus a stream with the accumulated record sources; history independence: one record with arbitrary valid accumulated sources decoded from an arbitrary state of the three package-level accumulators (any history's effect is some value of them) versus the fresh state; Encode determinism: two records with different fields under every map iteration order",
+			"thorough": "as quick with n = 3",
+		},
+		Outside: []string{"'equal to what a fresh process returns' is taken as 'equal to the run from the interpreted initial state of the package'", "json.go's buffer pool is not on any decode/encode path (no write to it is recorded) and is not claimed",
+			"the two frame assertions are facts about the engine's heap (writes to objects that pre-exist the call) and have no native counterpart; their observable consequence is replayed natively through H08b"},
+		Assumptions: append([]string{"an object is 'shared' when it was allocated by package initialisation or is a package-level variable"}, commonAssumptions...),
+	})
+	reg(&CheckDef{
+		ID:    "C09",
+		Level: "other",
+		Jobs: func(tier string, meta map[string]int) []Job {
+			var js []Job
+			n := 2
+			if tier == "thorough" {
+				n = 3
+			}
+			for _, k := range kindSeqs(n) {
+				js = append(js, job("fit", "H09", "n", n, "kinds", k))
+			}
+			js = append(js, job("fit", "H09acc"))
+			return js
+		},
+		MustReach:      []string{"C09.no-shared-object-is-written", "C09.same-result-as-alone", "C09.race-free"},
+		NoNativeReplay: map[string]bool{"C09.no-shared-object-is-written": true},
+		RaceID:         "C09.race-free",
+		Explanation:    "The engine has no thread interleavings. The claim is reduced to a non-interference premise that is decidable here: (P) within the stated bounds no decoding/encoding entry point writes an object that exists before the call (package-level variables and everything package initialisation allocated), decided by symbolic execution with write provenance over all stream contents of the model. (P) implies that any interleaving of calls on independent readers, writers and Files is race-free and returns what each call returns alone (disjoint-state argument, stated not machine-checked; standard-library internals are assumed goroutine-safe as documented). Every path's model is additionally replayed natively with the two calls in separate goroutines under the Go race detector; where (P) fails (the package-level accumulators) the native replay must show a detector report before the finding is printed.",
+		Bounds: map[string]interface{}{
+			"quick":    "pairs of calls: Decode+Encode+CheckIntegrity on one model stream (n = 2 records, every kind order, arbitrary bytes) against Decode+DecodeChained on another; plus the accumulator exception on two concrete streams",
+			"thorough": "as quick with n = 3",
+		},
+		Outside:     []string{"interleavings themselves (no schedule is explored symbolically); more than two concurrent calls; streams outside the model"},
+		Assumptions: append([]string{"disjoint-state argument from (P) to race freedom is a paper argument"}, commonAssumptions...),
 	})
 }
